@@ -90,6 +90,8 @@ def replay_beh(chk, C, beh, rnd):
                 salt = salt_for(h["fmt"], rnd)
                 if salt is not None:
                     kw["salt"] = salt
+                if h["fmt"] == "bcrypt":            # every variant letter a classic bcrypt hash may carry
+                    kw["ident"] = rnd.choice(["2a", "2b", "2y"])
                 text = P.using(**kw).hash(pw(st["pw"], h["fmt"]))
                 real[json.dumps(h, sort_keys=True)] = text
                 extra["hash"] = text
